@@ -162,6 +162,61 @@ def h_compose_orthonormal(sym):
     sym.goal('proved')
 
 
+def h_inverse_after_scale(sym):
+    """Histories on ONE object: inverse, scale, inverse again. After scale(s) the inverse must undo the forward transform of the
+    SCALED pose (no state derived before the scaling may survive it); a shallow copy scaled afterwards likewise."""
+    import copy
+    sym.B.update(PROVE)
+    A = Pose(rot(sym, 'r'), vec(sym, 't'))
+    p = vec(sym, 'p')
+    s = sym.real('s', -20, 20)
+    A.inv_rotate_translate(p)                      # an inverse operation before scaling
+    A.inv_rotate_translate_pose(Pose())
+    B = copy.copy(A) if sym.B.get('copy') else A
+    t_before = list(A.translation)
+    B.scale(s)
+    M = gram([list(r) for r in B.rot_matrix])
+    q = B.inv_rotate_translate(B.rotate_translate(p))
+    for i in range(3):
+        chain(sym, [q[i], sum(M[i][k] * p[k] for k in range(3)), p[i]], f'component {i} after scale')
+        assert sym.close(B.translation[i], t_before[i] * s)
+    if sym.B.get('copy'):
+        for i in range(3):
+            assert A.translation[i] is t_before[i], 'scaling the copy changed the original'
+    sym.goal('proved')
+
+
+def h_no_alias(sym):
+    """A Pose is a fixed rigid motion: modifying the arrays it was built from, or a default pose, later does not change it."""
+    R = np.array(anymat(sym, 'a'), dtype=object)
+    t = np.array(vec(sym, 'at'), dtype=object)
+    buf = np.zeros(6)
+    buf[:] = (0.1, -0.2, 0.3, 1.0, 2.0, 3.0)
+    A = Pose(R, t)
+    C = Pose.from_rot_vec(buf[:3], buf[3:])
+    r0, t0 = [list(r) for r in A.rot_matrix], list(A.translation)
+    c0 = (np.array(C.rot_matrix, dtype=float).copy(), np.array(C.translation, dtype=float).copy())
+    R[0][0] = 7.0
+    t[1] = 7.0
+    buf[:] = 0.5
+    for i in range(3):
+        assert A.translation[i] is t0[i], 'pose translation aliases the array it was built from'
+        for j in range(3):
+            assert A.rot_matrix[i][j] is r0[i][j], 'pose rotation aliases the array it was built from'
+    assert np.array_equal(np.array(C.rot_matrix, dtype=float), c0[0]) and np.array_equal(np.array(C.translation, dtype=float), c0[1]), \
+        'pose built from a parameter buffer changed when the buffer was reused'
+    D = Pose()
+    D.translation[0] = D.translation[0]            # reading is fine
+    E = Pose()
+    try:
+        E.translation[0] = 5.0                      # an in-place write into one default pose ...
+    except ValueError:
+        pass
+    F = Pose()
+    assert float(F.translation[0]) == 0.0 and float(F.rot_matrix[0][0]) == 1.0, '... must not change what Pose() means'
+    sym.goal('proved')
+
+
 def h_scale(sym):
     """Pose.scale multiplies the translation by the factor, keeps the rotation (same values) and leaves the old arrays alone."""
     A = Pose(anymat(sym, 'a'), vec(sym, 'at'))
@@ -187,4 +242,7 @@ HARNESSES = [
              timeout=(300, 900), per_path=900, tiers=('quick', 'thorough') if (i, j) in ((0, 0), (0, 1)) else ('thorough',))
      for i in range(3) for j in range(i, 3)] + [
     Harness('scale', h_scale, float_model='real', goals=('proved',), timeout=(120, 300)),
+    Harness('inverse_after_scale', h_inverse_after_scale, float_model='real', goals=('proved',), timeout=(300, 900), per_path=900),
+    Harness('inverse_after_scale[copy]', h_inverse_after_scale, quick=dict(copy=True), float_model='real', goals=('proved',), timeout=(300, 900), per_path=900),
+    Harness('no_alias', h_no_alias, float_model='real', goals=('proved',), timeout=(120, 300)),
 ]
